@@ -437,6 +437,14 @@ class Interp:
         return "".join(parts)
 
     def e_IfExp(self, n, env):
+        if self.V.in_contract_expr:
+            # clauses never fork paths: a conditional expression is an if-then-else term
+            t = self.truth(self.eval(n.test, env))
+            if isinstance(t, bool):
+                return self.eval(n.body if t else n.orelse, env)
+            from .calls import _ite
+
+            return _ite(self, t, self.eval(n.body, env), self.eval(n.orelse, env))
         if self.branch(self.eval(n.test, env)):
             return self.eval(n.body, env)
         return self.eval(n.orelse, env)
@@ -641,6 +649,8 @@ class Interp:
         return isinstance(v, SV) and isinstance(v.ty, Abs) and v.ty.key in USER_EQ_SORTS
 
     def identical(self, a, b):
+        if (isinstance(a, SV) and a.ty == Abs("PyType")) != (isinstance(b, SV) and b.ty == Abs("PyType")):
+            return self.py_eq(a, b)
         if a is None or b is None:
             o = b if a is None else a
             if o is None:
@@ -671,7 +681,21 @@ class Interp:
             return False
         return a is b
 
+    def _pytype_is(self, t, c):
+        cname = c.name if isinstance(c, ClassRef) else None
+        if cname is None:
+            for bn, bf in BUILTINS.items():
+                if bf is c:
+                    cname = bn
+        if cname is None:
+            raise Unsupported(f"type compared with {c!r}")
+        return SV(z3.Function(f"pytype_is_{cname}", sort_of(t.ty), z3.BoolSort())(t.t), BOOL)
+
     def py_eq(self, a, b, node=None):
+        if isinstance(a, SV) and a.ty == Abs("PyType") and not isinstance(b, SV):
+            return self._pytype_is(a, b)
+        if isinstance(b, SV) and b.ty == Abs("PyType") and not isinstance(a, SV):
+            return self._pytype_is(b, a)
         if isinstance(a, Obj) and not a.rec and self.V.has_method(a.cls, "__eq__"):
             return self.call_method(a, "__eq__", [b], {}, node)
         if isinstance(b, Obj) and not b.rec and self.V.has_method(b.cls, "__eq__") and not isinstance(a, Obj):
